@@ -1,5 +1,6 @@
 import Ruint.Lemmas.Bytes
 import Ruint.Lemmas.RsTactic
+import Ruint.Lemmas.GenBytes
 
 /-!
 # C08 — byte encodings are positional, round-trip, and range-check without panicking
@@ -264,5 +265,33 @@ theorem gen_nbytes_eq (bits : ℕ) (h : bits + 7 < 2 ^ 64) : Ruint.Gen.nbytes bi
   unfold Ruint.Gen.nbytes Ruint.Bytes.nbytes
   rs_norm
   rw [Nat.mod_eq_of_lt h]
+
+/-! ### the byte-slice decoders regenerated whole from `src/bytes.rs` (`Gen/WordsBytes.lean`)
+
+`try_from_le_slice` / `try_from_be_slice` — the functions every codec decoder funnels into — as the source defines them
+(length guard, full-limb fast path with its range check, byte accumulation loop, `from_limbs` with its `assert!`), translated
+on every run, equal the models above for every width below `2^64 - 7` bits and every byte string. The two raw-pointer word
+reads of the fast paths are declared rewrites to `Rs.leWord` / `Rs.beWord` (trusted, `Gen/PreludeBytes.lean`). -/
+
+theorem gen_try_from_le_slice_eq (bits : ℕ) (hN : nlimbs bits < 2 ^ 60) (hB : bits + 7 < 2 ^ 64) (bytes : List ℕ)
+    (hb : AllByte bytes) (f : ℕ) (hf : nlimbs bits + bytes.length + 1 < f) :
+    Ruint.GenBytes.toRes (Ruint.Gen.uint_try_from_le_slice f bits (nlimbs bits) bytes) = tryFromLeSlice bits bytes :=
+  Ruint.GenBytes.try_from_le_slice_eq bits hN hB bytes hb f hf
+
+theorem gen_try_from_be_slice_eq (bits : ℕ) (hN : nlimbs bits < 2 ^ 60) (hB : bits + 7 < 2 ^ 64) (bytes : List ℕ)
+    (hb : AllByte bytes) (f : ℕ) (hf : nlimbs bits + bytes.length + 1 < f) :
+    Ruint.GenBytes.toRes (Ruint.Gen.uint_try_from_be_slice f bits (nlimbs bits) bytes) = tryFromBeSlice bits bytes :=
+  Ruint.GenBytes.try_from_be_slice_eq bits hN hB bytes hb f hf
+
+/-- hence the decoders as the source defines them never reach the `assert!` of `from_limbs`, whatever the input -/
+theorem gen_try_from_slice_never_panics (bits : ℕ) (hN : nlimbs bits < 2 ^ 60) (hB : bits + 7 < 2 ^ 64) (bytes : List ℕ)
+    (hb : AllByte bytes) (f : ℕ) (hf : nlimbs bits + bytes.length + 1 < f) :
+    Ruint.Gen.uint_try_from_le_slice f bits (nlimbs bits) bytes ≠ none
+      ∧ Ruint.Gen.uint_try_from_be_slice f bits (nlimbs bits) bytes ≠ none := by
+  have h := try_from_slice_never_panics bits bytes hb
+  rw [← gen_try_from_le_slice_eq bits hN hB bytes hb f hf, ← gen_try_from_be_slice_eq bits hN hB bytes hb f hf] at h
+  constructor
+  · intro e; rw [e] at h; exact h.1 rfl
+  · intro e; rw [e] at h; exact h.2 rfl
 
 end Ruint.C08
